@@ -3,7 +3,7 @@ from __future__ import annotations
 
 import ast
 
-from ..core import (AnalysisError, call_name, dotted, is_const, kwarg, local_defs, norm, origin, parent_map,
+from ..core import (AnalysisError, alpha, call_name, dotted, is_const, kwarg, local_defs, norm, origin, parent_map,
                     walk_local)
 from ..facts import guards_of, returns_of, enclosing_loops
 from ..rules import matcher as M
@@ -42,6 +42,7 @@ def run(rep):
     rep.run(exact)
     rep.run(estimate)
     rep.run(dedup)
+    rep.run(dedup_key)
     rep.run(consistency)
     rep.run(anchor_selection, "O11.5")
 
@@ -178,8 +179,20 @@ def estimate(rep):
                                for n in walk_local(bo.node))
     rep.ob("O11.2", "R12", bo, ok, "orbits = colour classes", "estimated orbits are exactly the final colour classes")
     ft = rep.f(AE, "AutoEst.fit")
-    order = [c for c in sorted([(c.lineno, call_name(c)) for c in walk_local(ft.node) if isinstance(c, ast.Call) and call_name(c).startswith("_")])]
-    rep.ob("O11.2", "R12", ft, [c for _, c in order] == ["_initialize_colors", "_refine_colors", "_build_orbits"], [c for _, c in order], "fit = initial colours, refinement, colour classes")
+    from ..cfg import CFG, ENTRY, EXIT
+    cfg = CFG(ft.node)
+    steps = {}
+    for c in walk_local(ft.node):
+        if isinstance(c, ast.Call) and norm(c.func) in ("self._initialize_colors", "self._refine_colors", "self._build_orbits"):
+            steps.setdefault(call_name(c), []).append(cfg.stmt_of(c))
+    okf = set(steps) == {"_initialize_colors", "_refine_colors", "_build_orbits"} and all(len(v) == 1 and v[0] is not None for v in steps.values())
+    if okf:
+        a, b_, c_ = steps["_initialize_colors"][0], steps["_refine_colors"][0], steps["_build_orbits"][0]
+        # every run of fit() goes through all three, in this order: colours are always computed from THIS graph
+        okf = all(cfg.all_paths_pass(ENTRY, r, [a]) and cfg.all_paths_pass(ENTRY, r, [b_]) and cfg.all_paths_pass(ENTRY, r, [c_]) for r in returns_of(ft.node)) \
+            and cfg.all_paths_pass(ENTRY, b_, [a]) and cfg.all_paths_pass(ENTRY, c_, [b_])
+    rep.ob("O11.2", "R12", ft, okf, sorted(steps), "every run of fit() computes initial colours, refines them and builds the colour classes, in this order, from this graph "
+           "(a path that skips the computation - e.g. a memo hit - hands out colours that belong to another graph)")
 
 
 def dedup(rep):
@@ -325,3 +338,85 @@ TWINS = [
          old="                orbit_sets[u].add(v)\n                orbit_sets[v].add(u)", new="                orbit_sets[v].add(u)\n                orbit_sets[u].add(v)"),
     dict(name="sigs sorted via sorted()", file=AE, old="        sigs.sort()\n        return (base, tuple(sigs))", new="        return (base, tuple(sorted(sigs)))"),
 ]
+
+
+# ------------------------------------------------------------------ the de-duplication key
+def dedup_key(rep):
+    """Two matches may be merged only if they differ by a permutation inside pattern orbits.  The key therefore has to record, for
+    every pattern node of a match, WHICH orbit (or which anchored node) it belongs to and where it went: (anchored node, image) pairs,
+    and per free orbit (its present nodes, sorted images).  A key that forgets the orbit's identity, or skips some orbits, merges
+    inequivalent matches and loses reactions."""
+    pp = rep.f(DD, "_prepare_pattern_orbits")
+    PO, PA = pp.params[0], pp.params[1]
+    defs = local_defs(pp.node)
+    rets = [r for r in returns_of(pp.node) if isinstance(r.value, ast.Tuple) and len(r.value.elts) == 2 and not (isinstance(r.value.elts[0], ast.List) and not r.value.elts[0].elts)]
+    rep.need("R7", len(rets), 1, "return (free_orbits, anchored_nodes) in _prepare_pattern_orbits")
+    free, anch = rets[0].value.elts
+    fsrc = origin(defs, free)
+    ok = False
+    if isinstance(fsrc, ast.ListComp) and len(fsrc.generators) == 1:
+        g = fsrc.generators[0]
+        o = norm(g.target)
+        base = origin(defs, g.iter)
+        base_ok = pmatch(f"[tuple(sorted($o)) for $o in {PO}]", base) is not None or norm(base) == PO
+        only_disjoint = len(g.ifs) == 1 and (pmatch(f"not set({o}) & {PA}", g.ifs[0]) is not None or pmatch(f"not {PA} & set({o})", g.ifs[0]) is not None
+                                             or pmatch(f"set({o}).isdisjoint({PA})", g.ifs[0]) is not None)
+        ok = base_ok and only_disjoint and norm(fsrc.elt) == o
+    rep.ob("O11.3", "R7", pp, ok, alpha(fsrc, pp.node), "the free orbits are ALL pattern orbits disjoint from the anchor (no further filter: a dropped orbit's images vanish from the key)")
+    asrc = origin(defs, anch)
+    rep.ob("O11.3", "R7", pp, pmatch(f"tuple(sorted({PA}))", asrc) is not None, alpha(asrc, pp.node), "every anchored pattern node is pinned individually")
+    fs = rep.f(DD, "_free_sig_from_pattern_orbits")
+    M_, FO, HR = fs.params
+    fdefs = local_defs(fs.node)
+    pm = parent_map(fs.node)
+    loops = [l for l in walk_local(fs.node) if isinstance(l, ast.For) and norm(l.iter) == FO]
+    rep.need("R7", len(loops), 1, "loop over the free orbits")
+    lp = loops[0]
+    orb = norm(lp.target)
+    apps = [(n, b) for n, b in pfind("$parts.append(($$ident, $$image))", lp)]
+    rep.need("R7", len(apps), 1, "<parts>.append((orbit identity, images))")
+    n0, b0 = apps[0]
+    e_ident, e_image = n0.args[0].elts
+    ldefs = local_defs(lp)
+    isrc = origin(ldefs, e_ident)
+    present = None
+    m = pmatch("tuple(sorted($p))", isrc) or pmatch("tuple($p)", isrc) or pmatch("frozenset($p)", isrc)
+    if m:
+        psrc = origin(ldefs, ast.Name(id=m["p"], ctx=ast.Load()))
+        if pmatch(f"[$x for $x in {orb} if $x in $keys]", psrc) is not None or m["p"] == orb:
+            present = m["p"]
+    rep.ob("O11.3", "R7", fs, present is not None, alpha(isrc, fs.node),
+           "each part of the key names the orbit's own pattern nodes (not just how many there are): equally large orbits must not become interchangeable")
+    imsrc = origin(ldefs, e_image)
+    im = pmatch(f"tuple(sorted(({HR}({M_}[$p]) for $p in $src)))", imsrc)
+    okim = im is not None and (present is None or norm(origin(ldefs, ast.Name(id=im["src"], ctx=ast.Load()))) in (norm(isrc), norm(origin(ldefs, ast.Name(id=present, ctx=ast.Load()))))
+                               or im["src"] in (present, b0["ident"]))
+    rep.ob("O11.3", "R7", fs, okim, alpha(imsrc, fs.node), "and the images of exactly those nodes, as a multiset (permutations inside the orbit are the only thing forgotten)")
+    skips = [x for x in walk_local(lp) if isinstance(x, (ast.Continue, ast.Break))]
+    oks = all(isinstance(x, ast.Continue) and [(norm(t), s_) for t, s_ in guards_of(pm, x, lp)] == [(present or "?", False)] for x in skips)
+    rep.ob("O11.3", "R7", fs, oks, [type(x).__name__ for x in skips], "an orbit is skipped only when none of its nodes occurs in the (partial) match")
+    rets = [r for r in returns_of(fs.node) if not (isinstance(r.value, ast.Tuple) and not r.value.elts)]
+    okr = len(rets) == 1 and (pmatch(f"tuple({b0['parts']})", rets[0].value) is not None or pmatch(f"tuple(sorted({b0['parts']}))", rets[0].value) is not None)
+    rep.ob("O11.3", "R7", fs, okr, rets[0] if rets else "return", "the key lists every part")
+    an = rep.f(DD, "_anchor_sig")
+    AM_, AN = an.params
+    rets = [r for r in returns_of(an.node) if not (isinstance(r.value, ast.Tuple) and not r.value.elts)]
+    oka = False
+    if len(rets) == 1:
+        m = pmatch(f"tuple((($p, {AM_}[$p]) for $p in $src))", rets[0].value)
+        if m:
+            s_ = origin(local_defs(an.node), ast.Name(id=m["src"], ctx=ast.Load()))
+            oka = pmatch(f"[$x for $x in {AN} if $x in {AM_}]", s_) is not None or m["src"] == AN
+    rep.ob("O11.3", "R7", an, oka, rets[0] if rets else "return", "anchored nodes contribute their exact (node, image) pairs")
+    # the key used by the filter is (free part, anchor part) of THIS match
+    fi = rep.f(DD, "deduplicate_matches_with_anchor")
+    loops = [l for l in walk_local(fi.node) if isinstance(l, ast.For) and norm(l.iter) == fi.params[0]]
+    if loops:
+        mv = norm(loops[0].target)
+        b = pall([f"$free = _free_sig_from_pattern_orbits({mv}, $fo, $hr)", f"$anc = _anchor_sig({mv}, $an)", "$sig = ($free, $anc)", "$seen.add($sig)"], loops[0])
+        okk = b is not None
+        if okk:
+            d2 = local_defs(fi.node)
+            up = {x.index: nm for nm, xs in d2.items() for x in xs if x.index is not None and isinstance(x.value, ast.Call) and call_name(x.value) == "_prepare_pattern_orbits"}
+            okk = up.get((0,)) == b["fo"] and up.get((1,)) == b["an"]
+        rep.ob("O11.3", "R7", fi, okk, "sig = (free signature, anchor signature)", "the key of a match combines its free-orbit part and its anchor part, built from the prepared orbits")
